@@ -91,7 +91,7 @@ class C30(Check):
             "arbitrary values) answered by generated WSGI responses (fixed, streamed in pieces with empty yields, empty, "
             "length-less empty, raised HTTPError with and without detail), over pipes of drawn capacity with a seeded "
             "schedule of service and partial-delivery steps; non-trivial = the request carries at least one of query, "
-            "headers, body/data/form; distinct = digest of (requests, responses)")
+            "headers, body/data/form; a later request may omit its path (the client reuses the one it transmitted last; such plans issue requests one at a time); distinct = digest of (requests, responses)")
     components = {"real": ["ioflo.aio.http.clienting.Patron/Requester/Respondent", "ioflo.aio.http.serving.Valet/Requestant/Responder",
                            "ioflo.aio.http.httping", "ioflo.aio.tcp Client/Server/Incomer"],
                   "stub": ["socket module", "WSGI application (records environ, answers from the plan)"]}
